@@ -34,9 +34,9 @@ COMPONENTS = {'real': ['bespokeasm (whole package) through the CLI entry point',
               'model': ['props/c09.py:SubstModel (whole-word, fixpoint, cycle-rejecting substitution)']}
 
 PDIR = '/sim/p'
-NAMES = ['AB', 'ABC', 'XAB', 'A_B', 'AB1', 'BA', 'B1', 'CC']
+NAMES = ['AB', 'ABC', 'XAB', 'A_B', 'AB1', 'BA', 'B1', 'CC', 'Ab', 'cc']
 # constants whose names contain symbol names as prefix / suffix / infix, or equal a name that may become a symbol later
-CONST_NAMES = ['XABY', 'ABX', 'Q_AB', 'AB1', 'BA', 'ABCD', 'CCC', 'B12', 'ZA_B']
+CONST_NAMES = ['XABY', 'ABX', 'Q_AB', 'AB1', 'BA', 'ABCD', 'CCC', 'B12', 'ZA_B', 'ab', 'aB', 'Cc', 'ba']
 WORD = re.compile(r'\b[A-Za-z_]\w+\b')
 
 
@@ -91,7 +91,8 @@ class SubstModel:
             self.symbols[n] = v or ''
             self.source[n] = 'cli'
         self.consts = {}
-        self.out = []           # expected bytes
+        self.out = []           # expected bytes (a muted byte occupies its address and shows as fill 0)
+        self.mute = 0
         self.probes = {}
         self.shape = []
 
@@ -128,8 +129,16 @@ class SubstModel:
                 return None
             self.consts[op['name']] = op['value']
             return 'keep', [f'{op["name"]} = {op["value"]}']
+        if k == 'mute':
+            self.mute += 1
+            return 'keep', ['#mute']
+        if k == 'unmute':
+            self.mute = max(0, self.mute - 1)
+            return 'keep', [op.get('word', '#unmute')]
         if k == 'define':
             line = f'#define {op["name"]}' + (f' {op["value"]}' if op['value'] != '' else '')
+            if self.mute:
+                self.probes['define_while_muted'] = self.probes.get('define_while_muted', 0) + 1
             if op['name'] in self.symbols:
                 self.probes['redefinition_' + self.source[op['name']]] = self.probes.get(
                     'redefinition_' + self.source[op['name']], 0) + 1
@@ -159,7 +168,7 @@ class SubstModel:
                 vals.append(0)
             if not vals:
                 return None
-            self.out += vals
+            self.out += vals if not self.mute else [0] * len(vals)
             self.probes['string_valued_symbol_used'] = self.probes.get('string_valued_symbol_used', 0) + 1
             if '\\' in m.group(1):
                 self.probes['replacement_text_with_backslash'] = self.probes.get('replacement_text_with_backslash', 0) + 1
@@ -183,7 +192,7 @@ class SubstModel:
             width = 2 if directive == '.2byte' else 1
             for v in vals:
                 v &= (1 << (8 * width)) - 1
-                self.out += list(v.to_bytes(width, 'big'))
+                self.out += list(v.to_bytes(width, 'big')) if not self.mute else [0] * width
             if mentioned:
                 self.probes['use_mentions_symbol'] = self.probes.get('use_mentions_symbol', 0) + 1
                 srcs = {self.source[w] for w in mentioned}
@@ -217,7 +226,8 @@ def world_for(case, lines):
     for raw in case.get('cli_raw', []):
         argv += ['-D', raw]
     return {'files': {f'{PDIR}/isa.yaml': gen.isa_text(isa_for(case['pre_symbols']), 'yaml'),
-                      f'{PDIR}/main.asm': '\n'.join(lines + ['  .byte $EE']) + '\n'},
+                      f'{PDIR}/main.asm': '\n'.join(lines + ['#unmute'] * sum(1 for x in lines if x == '#mute') + [
+                          '  .byte $EE']) + '\n'},
             'argv': argv, 'cwd': PDIR, 'env': {'HOME': '/sim/home'}, 'step_budget': 3_000_000}
 
 
@@ -348,12 +358,16 @@ def make_machine(stats, box):
                 if cn not in self.model.symbols:
                     self.do({'op': 'const', 'name': cn, 'value': 3 + 2 * i})
 
-        def do(self, op):
+        def do(self, op, check=True):
             res = self.model.apply(op)
             if res is None:
                 return
             self.case['ops'].append(op)
             mode, new = res
+            if not check and mode == 'keep':
+                # intermediate step of an idiom: recorded and kept, assembled together with the next checked step
+                self.lines = self.lines + new
+                return
             r = child.run_world(world_for(self.case, self.lines + new))
             stats['runs'] += 1
             stats['evaluations'] += 1
@@ -428,6 +442,49 @@ def make_machine(stats, box):
             self.do({'op': 'define', 'name': y, 'value': str(w)})
             self.do({'op': 'use', 'text': x, 'directive': '.byte'})
             self.do({'op': 'use', 'text': f'{y} + {x}', 'directive': '.byte'})
+
+        @rule()
+        def mute(self):
+            if self.model.mute < 2:
+                self.do({'op': 'mute'})
+
+        @rule(word=st.sampled_from(['#unmute', '#emit']))
+        def unmute(self, word):
+            if self.model.mute:
+                self.do({'op': 'unmute', 'word': word})
+
+        @rule(n=st.integers(min_value=12, max_value=26), src=st.lists(st.sampled_from(['d', 'd', 'd']), min_size=1,
+                                                                   max_size=1), rev=st.booleans())
+        def idiom_deep_chain(self, n, src, rev):
+            """a loop-free chain of n symbols (D00 -> D01 -> ... -> literal), defined in either order, then used"""
+            m = self.model
+            if any(k.startswith('D0') for k in m.symbols):
+                return
+            names = [f'D{i:02d}' for i in range(n)]
+            order = list(range(n))
+            if rev:
+                order.reverse()
+            for i in order:
+                val = names[i + 1] if i + 1 < n else '7'
+                self.do({'op': 'define', 'name': names[i], 'value': val if i % 5 else f'{val}+0'}, check=False)
+            self.do({'op': 'use', 'text': names[0], 'directive': '.byte'})
+            self.do({'op': 'use', 'text': f'{names[n // 2]} + {names[0]}', 'directive': '.byte'})
+
+        @rule(data=st.data())
+        def idiom_case_twins(self, data):
+            """a symbol and an identifier that differs from it only by letter case on the same line"""
+            m = self.model
+            pairs = [('AB', 'ab'), ('AB', 'aB'), ('CC', 'Cc'), ('BA', 'ba')]
+            ok = [(s_, c) for s_, c in pairs if c not in m.symbols]
+            if not ok:
+                return
+            s_, c = data.draw(st.sampled_from(ok))
+            if c not in m.consts:
+                self.do({'op': 'const', 'name': c, 'value': data.draw(st.integers(min_value=1, max_value=40))})
+            if s_ not in m.symbols:
+                self.do({'op': 'define', 'name': s_, 'value': data.draw(lit)})
+            self.do({'op': 'use', 'text': f'{s_} + {c}', 'directive': '.byte'})
+            self.do({'op': 'use', 'text': f'{c}, {s_}', 'directive': '.byte'})
 
         @rule(data=st.data())
         def idiom_late_cycle(self, data):
